@@ -5,8 +5,7 @@ open Lean PonyVerif.Drive PonyVerif.Model.ConnLock
 
 /-
   request  {"op":"run", "init":{"n":k,"nextCon":c,"poolPid":b,"closed":[..]},
-            "faults":[call indices that raise],
-            "sessions":[{"immediate":b,"ddl":b,"reconnect":b,"bodyRaises":b,
+            "sessions":[{"immediate":b,"ddl":b,"reconnect":b,"bodyRaises":b,"faults":[global call indices that raise],
                          "prog":[["query",caught] | ["write",many,caught] | ["modify",[many..],caught] | ["flush",caught]
                                  | ["commit",caught] | ["rollback",caught] | ["getConnection",caught]]}]}
   reply    {"sessions":[{"outcome":"ok"|exception kind, "events":[...], "state":{...}}]}
@@ -31,14 +30,13 @@ def jsonOfEv : Ev → Json
 def excName : Exc → String
   | .raw => "raw" | .wrapped => "wrapped" | .connClosed => "ConnectionClosedError" | .commitExc => "CommitException"
   | .rollbackExc => "RollbackException" | .body => "body" | .assertion => "AssertionError" | .deadlock => "deadlock"
-  | .unlocked => "unlocked"
+  | .unlocked => "unlocked" | .attrError => "AttributeError"
 
 def jNats (l : List Nat) : Json := .arr (l.map (fun n => Json.num (JsonNumber.fromNat n))).toArray
 
 def jsonOfSt (s : St) : Json := Json.mkObj [
   ("n", .num (JsonNumber.fromNat s.n)), ("lock", .bool s.lock), ("pre", .bool s.pre), ("bad", .bool s.bad),
-  ("poolCon", jOptNat s.poolCon), ("poolPid", .bool s.poolPid), ("forked", jNats s.forked.reverse),
-  ("nextCon", .num (JsonNumber.fromNat s.nextCon)), ("closed", jNats s.closed.reverse), ("fk", .bool s.fk),
+  ("poolCon", jOptNat s.poolCon), ("poolPid", .bool s.poolPid),   ("nextCon", .num (JsonNumber.fromNat s.nextCon)), ("closed", jNats s.closed.reverse), ("fk", .bool s.fk),
   ("dirty", .bool s.dirty), ("hasCache", .bool s.hasCache), ("conn", jOptNat s.cache.conn), ("inTx", .bool s.cache.inTx)]
 
 def boolsOfJson (j : Json) : Except String (List Bool) := do
@@ -66,7 +64,6 @@ def handle (j : Json) : Except String Json := do
   let op ← argStr j "op"
   match op with
   | "run" =>
-      let faults ← natsOfJson (← j.getObjVal? "faults")
       let init ← j.getObjVal? "init"
       let s0 : St := { St.init with n := ← argNat init "n", nextCon := ← argNat init "nextCon",
                                     poolPid := ← argBool init "poolPid", closed := (← natsOfJson (← init.getObjVal? "closed")).reverse }
@@ -74,6 +71,7 @@ def handle (j : Json) : Except String Json := do
       let mut s := s0
       let mut outs : Array Json := #[]
       for sj in sess do
+        let faults ← natsOfJson (← sj.getObjVal? "faults")
         let cf : Cfg := { fails := fun i => faults.contains i, immediate := ← argBool sj "immediate", ddl := ← argBool sj "ddl",
                           reconnect := ← argBool sj "reconnect" }
         let prog ← (← argArr sj "prog").mapM opOfJson
